@@ -46,12 +46,14 @@ struct LibEnv final : rl::TypeContext {
   std::map<std::string, rl::TypeTraits> traits;
   std::map<std::string, ob::StructuredData> data;
   std::map<std::string, rl::SyntaxTree> asts;
+  std::set<std::string> propsGlobals;
   std::string buildError;
 
   // lazy: construct globals marked construction=1/2 through Factory::Boolean / Factory::Decartian
   LibEnv(const Gamma& G, bool lazy) {
     for (auto& g : G.globals) {
       types.emplace(g.name, toLibExprType(g.type));
+      if (g.props) propsGlobals.insert(g.name);
       if (g.isBase) traits.emplace(g.name, g.integral ? rl::TraitsIntegral : rl::TraitsNominal);
       if (lazy && g.construction == 1) data.emplace(g.name, ob::Factory::Boolean(data.at(g.lazyParts[0])));
       else if (lazy && g.construction == 2) data.emplace(g.name, ob::Factory::Decartian({data.at(g.lazyParts[0]), data.at(g.lazyParts[1])}));
@@ -89,7 +91,7 @@ struct LibEnv final : rl::TypeContext {
     return [this](const std::string& n) -> const rl::SyntaxTree* { auto it = asts.find(n); return it == asts.end() ? nullptr : &it->second; };
   }
   rl::ValueClassContext valueContext() const {
-    return [this](const std::string& n) { return types.count(n) ? rl::ValueClass::value : rl::ValueClass::invalid; };
+    return [this](const std::string& n) { return !types.count(n) ? rl::ValueClass::invalid : propsGlobals.count(n) ? rl::ValueClass::props : rl::ValueClass::value; };
   }
 };
 
